@@ -3,7 +3,9 @@
 Streams
   micro : os.path.normpath / os.path.relpath / urljoin-style resolution / urllib.parse.quote
           against their Lean mirrors on random paths (exact comparison).
-  site  : generated projects (shape x options x static pages, harness/c09_gen.py) -> real
+  site  : generated projects (shape x options x static pages x how the project / output directory is
+          reached: directly, through symbolic links, through `..` x doc comments of one / several
+          paragraphs, with `summary:` metadata, list-only; harness/c09_gen.py) -> real
           `ford` run in-process ->
           (a) correspondence: for every entity object of the project, `get_dir()` / `get_url()`
               equal the model's on the same (class, obj, ident, parent chain); the list pages
@@ -14,7 +16,11 @@ Streams
               convert_link equal `docLinkPath`; `str(entity)` prints the <a href> form exactly when
               the model's `strEmitsLink` says so and the `visible` attribute of directly constructed
               objects (source files) equals the regenerated rule's value; the members of the
-              project lists have the classes the theorem about them assumes;
+              project lists have the classes the theorem about them assumes; (round 3) for every entity the
+              decision of FortranBase.markdown to append the "Read more" link and its href, observed by a hook
+              on the real method, equal the model's `readMore`/`readMoreHref` on the real strings; (micro
+              stream) `normalise_path` and `relative_url` on a real directory tree with symbolic links equal
+              `normalisePath`/`relurl` with the tree's realpath handed over;
           (b) property oracle (harness/c09_links.py, defined from the statement only): every
               href/src/xlink:href/action and search-index url is external or relative, its file
               exists under the output directory, its fragment is an id of that file; then the
@@ -101,6 +107,42 @@ def micro_stream(drv, rng, n, rep):
         page = rng.choice(["index.html", "lists/files.html", f"{cd}/{cs}.html", "page/sub/deeper/last.html", "page/index.html"])
         reqs.append(["c09.projecturl", base, page])
         exp.append([os.path.relpath(base, os.path.dirname(os.path.join(base, page)))])
+    # `normalise_path` and `relative_url` of the real code on a real file system with symbolic links, against the
+    # model with the file system's `realpath` handed over at the points asked for
+    import tempfile
+    from ford.output import relative_url
+    from ford.utils import normalise_path
+
+    tmp = Path(os.path.realpath(tempfile.mkdtemp(prefix="ford-c09-fs-")))
+    try:
+        (tmp / "real" / "doc" / "lists").mkdir(parents=True)
+        (tmp / "real" / "doc" / "page" / "sub").mkdir(parents=True)
+        (tmp / "real" / "doc" / "proc").mkdir()
+        (tmp / "store").mkdir()
+        os.symlink(tmp / "real", tmp / "work", target_is_directory=True)
+        os.symlink(tmp / "store", tmp / "real" / "outlink", target_is_directory=True)
+        base_dirs = [tmp / "real", tmp / "work", tmp / "work" / ".." / "work", tmp / "real" / "doc" / ".."]
+        rels = ["./doc", "doc", "doc/../doc", "../work/doc", "outlink/doc", "./outlink/../doc", "src/./x", "../real/./doc/"]
+        for bd in base_dirs:
+            for rel in rels:
+                joined = str(bd / rel)
+                reqs.append(["c09.normalise", joined, os.path.realpath(joined)])
+                exp.append([str(normalise_path(bd, rel))])
+        roots = [tmp / "real" / "doc", tmp / "work" / "doc", tmp / "real" / "outlink" / "doc", tmp / "store" / "doc"]
+        pages = ["index.html", "lists/files.html", "proc/p~2.html", "page/sub/last.html"]
+        tgts = ["proc/x.html", "module/m~2.html", "lists/files.html", "index.html", "page/sub/index.html"]
+        for root in roots:
+            for pg in pages:
+                for tg in tgts:
+                    href = f"{root}/{tg}"
+                    # the page's location is the (resolved) output directory, as BasePage gets it
+                    page_url = Path(os.path.realpath(root)) / pg
+                    res = str(relative_url(f"<a href='{href}'>x</a>", page_url))
+                    m = re.fullmatch(r"<a href='([^']*)'>x</a>", res)
+                    reqs.append(["c09.relurl", href, os.path.realpath(href), str(page_url.parent)])
+                    exp.append(["unchanged" if m and m.group(1) == href else (m.group(1) if m else res)])
+    finally:
+        shutil.rmtree(tmp, ignore_errors=True)
     got = drv.batch(reqs)
     bad = 0
     for r, e, g in zip(reqs, exp, got):
@@ -113,11 +155,43 @@ def micro_stream(drv, rng, n, rep):
 
 # ------------------------------------------------------------------ one site (runs in a worker process)
 
-def build_project(P, root: Path):
+def layout(location: str, case_dir: Path):
+    """Where the project is written and through which path FORD is given its project file.
+    Returns (directory to write into, directory to address it by, extra options)."""
+    case_dir.mkdir(parents=True, exist_ok=True)
+    if location == "symlink-root":
+        # the project directory itself is a symbolic link
+        real = case_dir / "real"
+        real.mkdir()
+        os.symlink(real, case_dir / "work", target_is_directory=True)
+        return real, case_dir / "work", {}
+    if location == "symlink-ancestor":
+        # an ancestor of the project directory is a symbolic link (symlinked home / checkout directory)
+        (case_dir / "store" / "proj").mkdir(parents=True)
+        os.symlink(case_dir / "store", case_dir / "via", target_is_directory=True)
+        return case_dir / "store" / "proj", case_dir / "via" / "proj", {}
+    if location == "dotdot":
+        (case_dir / "a" / "b").mkdir(parents=True)
+        (case_dir / "proj").mkdir()
+        return case_dir / "proj", case_dir / "a" / "b" / ".." / ".." / "proj", {}
+    if location == "symlink-output":
+        # the path of the output directory crosses a symbolic link
+        (case_dir / "proj").mkdir()
+        (case_dir / "elsewhere").mkdir()
+        os.symlink(case_dir / "elsewhere", case_dir / "proj" / "outlink", target_is_directory=True)
+        return case_dir / "proj", case_dir / "proj", {"output_dir": "./outlink/doc"}
+    (case_dir / "proj").mkdir()
+    return case_dir / "proj", case_dir / "proj", {}
+
+
+def build_project(P, case_dir: Path):
     R = c09_gen.render(P)
     files = dict(R["files"])
     files.update(R["extra"])
+    root, via, extra_opts = layout(P.get("location", "plain"), case_dir)
+    R["options"].update(extra_opts)
     pf = e2e.write_project(root, files, R["options"], text=R["text"], pages=R["pages"])
+    pf = via / pf.name
     if R["media"]:
         (root / "media").mkdir(exist_ok=True)
         (root / "media" / "pic.png").write_bytes(b"\x89PNG\r\n")
@@ -210,6 +284,23 @@ def hidden_names(P):
     return out
 
 
+def hidden_interface_pages(P):
+    """Lower-cased names of the procedures whose *interface* page `hide_undoc` removes although they are documented:
+    every body of an unnamed interface block (and every separate-module-procedure interface) is wrapped in a
+    FortranInterface object of its own that carries no doc comment, so `_should_display` drops it."""
+    out = set()
+    if not P["opts"]["hide_undoc"]:
+        return out
+    for f in P["files"]:
+        for u in f["units"]:
+            if u["kind"] == "module":
+                for i in u["ifaces"]:
+                    if not i["name"]:
+                        out.update(b["name"].lower() for b in i["bodies"])
+                out.update(b["name"].lower() for b in u["modprocs"])
+    return out
+
+
 def project_features(P):
     feat = {"module_namelist": False, "localtype": False, "bound": False, "generic_modproc": False, "constructor": False}
     for f in P["files"]:
@@ -237,7 +328,8 @@ def project_features(P):
             else:
                 procs = []
             for p in procs:
-                if p.get("localtype"):
+                if p.get("localtype") or p.get("localiface"):
+                    # entities without page and anchor (get_url() is None)
                     feat["localtype"] = True
     return feat
 
@@ -284,6 +376,13 @@ def classify(fail, ctx):
             return "C09-entity-str-without-relurl"
         if feat["constructor"] and fail.get("in_constructor_row"):
             return "C09-entity-str-without-relurl"
+    if fail.get("read_more_of") is not None and missing and path == "../None" and not frag:
+        # the "Read more" link of the summary of an entity whose get_url() is None; the defect of the unchanged
+        # code needs `summary:` metadata in the doc comment or a documentation without <p> paragraph
+        rec = fail["read_more_of"]
+        if not rec["has_url"] and (rec["explicit"] or not rec["has_para"]) and not ctx.get("link_needs_url"):
+            return "C09-read-more-link-without-url"
+        return None
     if feat["localtype"] and page.startswith("proc/") and fail.get("in_localtype_doc"):
         if why == "absolute path" and url.startswith(ctx["out"] + "/"):
             return "C09-doc-link-in-entity-without-url"
@@ -314,6 +413,8 @@ def classify(fail, ctx):
         fname = re.sub(r"~\d+$", "", frag.split("-", 1)[1]) if "-" in frag else ""
         hid = ctx["hidden"]
         if (stem and stem.lower() in hid) or (fname and fname.lower() in hid):
+            return "C09-link-to-entity-hidden-by-display"
+        if missing and stem and re.fullmatch(r"(\.\./)*interface/[^/]+\.html", path) and stem.lower() in ctx["hidden_iface"]:
             return "C09-link-to-entity-hidden-by-display"
     return None
 
@@ -429,7 +530,10 @@ def run_site(args):
     P = c09_gen.gen_project(rng)
     root = Path(workdir) / f"s{k}"
     shutil.rmtree(root, ignore_errors=True)
-    res = {"k": k, "shape_kind": P["shape"], "opts": P["opts"], "has_pages": bool(P["pages"]), "P": P if keep else None}
+    res = {"k": k, "shape_kind": P["shape"], "opts": P["opts"], "has_pages": bool(P["pages"]), "P": P if keep else None,
+           "location": P.get("location", "plain"), "doc_style": {x: P["links"].get(x) for x in ("para_rate", "summary_rate", "list_rate")}}
+    _LAST["md"] = []
+    _LAST.pop("md_exc", None)
     try:
         pf, R = build_project(P, root)
         res["used"] = R["used"]
@@ -493,8 +597,26 @@ def run_site(args):
         fails = site.failures()
         ctx = {"out": str(out), "cwd": cwd, "opts": P["opts"], "shape": shape or c09_gen.shape_counts(P),
                "feat": project_features(P), "hidden": hidden_names(P), "functions": function_names(P),
-               "file_link_targets": file_link_targets(R)}
+               "file_link_targets": file_link_targets(R), "hidden_iface": hidden_interface_pages(P), "link_needs_url": _LAST.get("link_needs_url", False)}
+        # ---------- what FortranBase.markdown did for every entity (summary rule, "Read more" link)
+        md = _LAST.get("md", [])
+        if _LAST.get("md_exc"):
+            raise RuntimeError("markdown hook: " + _LAST["md_exc"][0])
+        res["md_total"] = len(md)
+        res["md_hist"] = {"read more link": sum(1 for m in md if m["emitted"]),
+                          "entity without url": sum(1 for m in md if not m["has_url"]),
+                          "entity without url, documented": sum(1 for m in md if not m["has_url"] and m["doc"].strip()),
+                          "entity without url, several paragraphs": sum(1 for m in md if not m["has_url"] and m["doc"].count("<p>") > 1),
+                          "summary metadata": sum(1 for m in md if m["explicit"]),
+                          "documentation without paragraph": sum(1 for m in md if not m["has_para"] and m["doc"].strip())}
+        # all the interesting ones, then a sample of the rest
+        first = [m for m in md if not m["has_url"] or m["explicit"] or (not m["has_para"] and m["doc"].strip())]
+        rest = [m for m in md if m["emitted"] and m not in first]
+        res["md"] = [{x: m[x] for x in ("cls", "name", "has_url", "url", "explicit", "summary_body", "emitted", "href",
+                                         "has_para", "para", "doc")} for m in (first[:80] + rest[:40])]
+        nourl_links = [m for m in md if m["emitted"] and not m["has_url"]]
         texts = {}
+        fulltext = {}
         for f in fails:
             pg = f["page"]
             if pg not in texts and (out / pg).is_file():
@@ -509,7 +631,21 @@ def run_site(args):
             # `<proctype> <strong>{{ proc }}</strong>` in the constructor table of a type summary
             f["in_constructor_row"] = re.search(r"(?:function|subroutine)\s*<strong><a href='" + re.escape(f["url"]) + "'", ctx3) is not None
             # is the link inside the documentation of a type local to a procedure?
-            f["in_localtype_doc"] = any("local type" in x or "component" in x for x in lines[max(0, ln - 1):ln]) if lines else False
+            f["in_localtype_doc"] = any("local type" in x or "component" in x or "local interface" in x
+                                        for x in lines[max(0, ln - 1):ln]) if lines else False
+            # is it the "Read more" link that FortranBase.markdown appended to the summary of an entity without URL?
+            # (the summary is printed verbatim: find it in the page and compare the line of its link)
+            f["read_more_of"] = None
+            if nourl_links and lines and f["tag"] == "a":
+                if pg not in fulltext:
+                    fulltext[pg] = "\n".join(lines)
+                txt = fulltext[pg]
+                for m in nourl_links:
+                    i = txt.find(m["summary"])
+                    while i >= 0 and f["read_more_of"] is None:
+                        if txt.count("\n", 0, i + len(m["summary_body"])) + 1 == ln and m["href"] == f["url"]:
+                            f["read_more_of"] = {x: m[x] for x in ("cls", "name", "has_url", "explicit", "has_para")}
+                        i = txt.find(m["summary"], i + 1)
             f["class"] = classify(f, ctx)
         res["fails"] = fails[:60]
         res["n_fails"] = len(fails)
@@ -535,12 +671,39 @@ def run_site(args):
 _LAST: dict = {}
 
 
+READ_MORE_RE = re.compile(r'<a href="([^"]*)" class="pull-right"><emph>Read more&hellip;</emph></a>$')
+
+
 def _install_hook():
-    """Remember the Project object of the run in this process (main() does not return it)."""
+    """Remember the Project object of the run in this process (main() does not return it), and what
+    FortranBase.markdown saw and produced for every entity (summary / "Read more" link)."""
     import ford.fortran_project as fp
+    import ford.sourceform as sf
 
     if getattr(fp.Project, "_c09_hooked", False):
         return
+    orig_md = sf.FortranBase.markdown
+
+    def markdown(self, md, *a, **kw):
+        explicit = getattr(getattr(self, "meta", None), "summary", None) is not None
+        r = orig_md(self, md, *a, **kw)
+        try:
+            recs = _LAST.setdefault("md", [])
+            summary = self.meta.summary
+            if isinstance(summary, str) and isinstance(self.doc, str):
+                m = READ_MORE_RE.search(summary)
+                url = self.get_url()
+                para = sf.PARA_CAPTURE_RE.search(self.doc)
+                recs.append({"cls": type(self).__name__, "name": str(getattr(self, "name", "")), "has_url": url is not None,
+                             "url": url if url is not None else "none", "explicit": explicit,
+                             "summary_body": summary[:m.start()] if m else summary, "emitted": m is not None,
+                             "href": m.group(1) if m else "", "has_para": para is not None,
+                             "para": para.group() if para else "", "doc": self.doc, "summary": summary})
+        except Exception as e:  # noqa
+            _LAST.setdefault("md_exc", []).append(f"{type(e).__name__}: {e}")
+        return r
+
+    sf.FortranBase.markdown = markdown
     orig = fp.Project.correlate
 
     def correlate(self, *a, **kw):
@@ -554,6 +717,11 @@ def _install_hook():
 def _worker_init():
     common.import_ford()
     _install_hook()
+    try:
+        from translate import c09 as tr
+        _LAST["link_needs_url"] = tr.extract_readmore(common.REPO)["link_needs_url"]
+    except Exception:  # the translator failure is reported by lean_prove in the parent
+        _LAST["link_needs_url"] = False
 
 
 # ------------------------------------------------------------------ comparison with the model
@@ -604,6 +772,18 @@ def compare_site(r, drv_answers, rep, stats):
                            f"{[rec['str_link'], rec['vis']]} for {rec['chain'][0]} (case {k})",
                            {"stream": "site", "case": k, "chain": rec["chain"], "model": ans,
                             "impl": [rec["str_link"], rec["vis"]], "opts": r["opts"]})
+    # --- FortranBase.markdown: is the "Read more" link appended to the summary, and with which href <-> model
+    #     (`readMore` on the real documentation / paragraph / converted `summary:` metadata strings)
+    for m, ans in zip(r.get("md", []), drv_answers.get("readmore", [])):
+        stats["readmore"] += 1
+        impl = ["1" if m["emitted"] else "0", m["href"] if m["emitted"] else ""]
+        model = [ans[0], ans[1] if ans[0] == "1" else ""]
+        if impl != model:
+            stats["bad"] += 1
+            rep.tie_broken(f"correspondence site/readmore: model (link appended, href) {model} vs implementation {impl} for "
+                           f"{m['cls']} {m['name']} (case {k})",
+                           {"stream": "site", "case": k, "entity": [m["cls"], m["name"]], "model": model, "impl": impl,
+                            "has_url": m["has_url"], "explicit_summary": m["explicit"], "doc": m["doc"][:300]})
     # --- members of the project lists versus the class the table names (annotation in Project.__init__; FORD's
     #     annotations are loose for lists such as `procedures`, so only what the theorem uses is compared):
     #     a list whose table class can be a parent, or has a static `visible` rule, holds exactly that class;
@@ -709,6 +889,13 @@ def run(tier: str, seed: int, replay: str | None = None) -> int:
     for l in failing_lists:
         rep.tie_broken(f"project.{l}: a member's __str__ may print the link to its page (its `visible` rule holds) for project "
                        f"shapes for which entity_list_page_map makes no page for it (listOk = false on the regenerated tables)")
+    # ---- the regenerated facts about path normalisation / relative_url, summary rule / link guard
+    rc = drv.call("c09.relurlcheck")
+    if rc[0] != "1":
+        rep.tie_broken(f"normalise_path is `{rc[1]}` but relative_url searches for the resolved href: links below an output "
+                       f"directory whose path crosses a symbolic link are not made relative (tablesOk = false on the regenerated facts)")
+    table_variants = {"normalise_path": rc[1], "relative_url_resolves_href": rc[2] == "1", "summary_rule": rc[3],
+                      "read_more_link_guarded_by_url": rc[4] == "1"}
     labels = {"base.html": set(), "index.html": set()}
     table_mro, table_list_class, table_dir_parent, table_vis_classes = {}, {}, [], []
     try:
@@ -733,8 +920,8 @@ def run(tier: str, seed: int, replay: str | None = None) -> int:
 
     hist = {"shape_kind": {}, "files": {}, "modules": {}, "programs": {}, "blockdata": {}, "procedures": {}, "types": {},
             "absinterfaces": {}, "namelists": {}, "submodules": {}, "options": {}, "links_by_page_kind": {}, "doc_link_targets": {},
-            "aborted_runs": {}}
-    stats = {"geturl": 0, "nav_pages": 0, "bad": 0, "strlink": 0, "str_exc": 0, "list_members": 0}
+            "aborted_runs": {}, "location": {}, "doc_style": {}, "summaries": {}}
+    stats = {"geturl": 0, "nav_pages": 0, "bad": 0, "strlink": 0, "str_exc": 0, "list_members": 0, "readmore": 0}
     n_links = n_internal = 0
     distinct = set()
     samples = []
@@ -773,10 +960,14 @@ def run(tier: str, seed: int, replay: str | None = None) -> int:
             index.append((r["k"], "strlink", len(reqs), len(r["entities"])))
             for rec in r["entities"]:
                 reqs.append(["c09.strlink", rec["vis"], str(len(rec["chain"]))] + [x for node in rec["chain"] for x in node] + fs)
+            index.append((r["k"], "readmore", len(reqs), len(r.get("md", []))))
+            for m in r.get("md", []):
+                reqs.append(["c09.readmore", "1" if m["has_url"] else "0", m["url"], "1" if m["explicit"] else "0",
+                             m["summary_body"] if m["explicit"] else "", "1" if m["has_para"] else "0", m["para"], m["doc"]])
         answers = drv.batch(reqs)
         by_site: dict[int, dict] = {}
         for k, name, start, n in index:
-            by_site.setdefault(k, {})[name] = answers[start] if name not in ("geturl", "strlink") else answers[start:start + n]
+            by_site.setdefault(k, {})[name] = answers[start] if name not in ("geturl", "strlink", "readmore") else answers[start:start + n]
         # ---- evaluate
         for r in results:
             k = r["k"]
@@ -786,6 +977,11 @@ def run(tier: str, seed: int, replay: str | None = None) -> int:
             bump("options", "display=" + "+".join(r["opts"]["display"]))
             bump("options", "sort=" + r["opts"]["sort"])
             bump("options", f"page_dir={r['has_pages']}")
+            bump("location", r.get("location", "plain"))
+            for x, v in (r.get("doc_style") or {}).items():
+                bump("doc_style", f"{x}={v}")
+            for x, v in (r.get("md_hist") or {}).items():
+                hist["summaries"][x] = hist["summaries"].get(x, 0) + v
             if r["opts"]["graph"]:
                 bump("options", f"graph_maxnodes={r['opts'].get('graph_maxnodes')}")
             if r.get("rc") != 0:
@@ -814,7 +1010,7 @@ def run(tier: str, seed: int, replay: str | None = None) -> int:
             n_links += r["n_links"]
             n_internal += r["n_internal"]
             key = common.digest([sh, {o: r["opts"][o] for o in ("incl_src", "search", "graph", "proc_internals", "display", "sort", "source", "hide_undoc")},
-                                 r["has_pages"]])
+                                 r["has_pages"], r.get("location", "plain")])
             distinct.add(key)
             if len(samples) < 3:
                 samples.append({"case": k, "shape": sh, "options": r["opts"], "pages": r["has_pages"], "links": r["n_links"],
@@ -859,17 +1055,19 @@ def run(tier: str, seed: int, replay: str | None = None) -> int:
     drv.close()
     n_ok = sum(1 for r in results if r.get("rc") == 0)
     rep.coverage.update(
-        evaluations=ev_micro + len(results) + stats["geturl"] + stats["strlink"] + stats["nav_pages"],
+        evaluations=ev_micro + len(results) + stats["geturl"] + stats["strlink"] + stats["nav_pages"] + stats["readmore"],
         distinct_nontrivial=len(distinct),
         rule="a site case = generated project (shape x options x static pages x doc links) run through ford end-to-end; "
-             "distinct by digest of (entity counts as FORD sees them, option combination, page tree present); all of them reach the mechanism",
+             "distinct by digest of (entity counts as FORD sees them, option combination, page tree present, how the project directory "
+             "is reached); all of them reach the mechanism",
         samples=samples,
-        traces_validated_against_impl=ev_micro + stats["geturl"] + stats["strlink"] + stats["nav_pages"] + n_ok,
+        traces_validated_against_impl=ev_micro + stats["geturl"] + stats["strlink"] + stats["nav_pages"] + stats["readmore"] + n_ok,
         correspondence_disagreements=stats["bad"] + bad_micro,
         sites_generated=len(results), sites_built=n_ok,
         links_checked=n_links, internal_links_checked=n_internal, relocation_checks=reloc_checked,
         entities_compared_get_url=stats["geturl"], pages_compared_navigation=stats["nav_pages"],
         entities_compared_str_link=stats["strlink"], entities_str_raises=stats["str_exc"],
+        entities_compared_read_more=stats["readmore"], regenerated_variants=table_variants,
         list_member_classes_compared=stats["list_members"], project_lists_failing_str_check=failing_lists,
         sites_with_failing_links=oracle_fail_sites, failing_links_by_class=dict(sorted(class_counts.items())),
         variant=variant, navigation_entries_failing_check=failing_entries,
@@ -880,5 +1078,8 @@ def run(tier: str, seed: int, replay: str | None = None) -> int:
         "which ids a template emits (anchors) is not modelled; the fragment oracle reads them from the written files",
         "CSS/JS assets shipped with FORD and verbatim source copies under src/ are not scanned for URLs",
         "a run that FORD aborts because a [[parent:child]] link names a missing child is counted, not judged (documented behaviour)",
+        "relurl model: the `replace` of relative_url is modelled as 'rewritten iff the resolved href equals the href as written' "
+        "(substring coincidences are not modelled); its plain-string branch (`pages.url | relurl`) is covered by the oracle only; "
+        "theorem hypothesis: what FORD writes below a canonical output directory is not reached through a symbolic link",
     ]
     return rep.finish(lean)
